@@ -190,7 +190,9 @@ Print Assumptions C06_intact_block_found_and_used.
 Theorem C06_spec_index_accepted : forall md5, (forall x, length (md5 x) = 16%nat) ->
   forall ix fs b sid si,
   wf_bytes b -> fs_lookup fs ix = Some b -> s_index md5 sid b = Some si -> g_index_extra md5 sid b = true ->
-  exists d st, new_decoder md5 ix (io_init fs []) = (Ok d, st) /    d_index d = ix /\ d_setid d = sid /\ d_slice d = si_slice si /    d_rec d = map dinfo_of (si_rec si) /\ d_nonrec d = map dinfo_of (si_nonrec si).
+  exists d st, new_decoder md5 ix (io_init fs []) = (Ok d, st) /\
+    d_index d = ix /\ d_setid d = sid /\ d_slice d = si_slice si /\
+    d_rec d = map dinfo_of (si_rec si) /\ d_nonrec d = map dinfo_of (si_nonrec si).
 Proof. exact spec_index_accepted. Qed.
 Print Assumptions C06_spec_index_accepted.
 
@@ -198,7 +200,10 @@ Theorem C06_spec_volume_accepted : forall md5, (forall x, length (md5 x) = 16%na
   forall b sid rs,
   wf_bytes b -> s_volume md5 sid b = Some rs -> g_volume_extra md5 sid b = true ->
   (has_own md5 sid b = true ->
-     exists f, read_file_vol md5 sid b = RFOk sid f /               (forall e d, In (e, d) (pf_recv f) <-> In (e, d) rs) /               (forall e d, assoc_n (pf_recv f) e = Some d <-> In (e, d) rs)) /  (has_own md5 sid b = false -> read_file_vol md5 sid b = RFNoPackets).
+     exists f, read_file_vol md5 sid b = RFOk sid f /\
+               (forall e d, In (e, d) (pf_recv f) <-> In (e, d) rs) /\
+               (forall e d, assoc_n (pf_recv f) e = Some d <-> In (e, d) rs)) /\
+  (has_own md5 sid b = false -> read_file_vol md5 sid b = RFNoPackets).
 Proof. exact spec_volume_accepted. Qed.
 Print Assumptions C06_spec_volume_accepted.
 
@@ -213,8 +218,12 @@ Theorem C06_spec_set_loaded : forall md5, (forall x, length (md5 x) = 16%nat) ->
      In (e, d1) (s_blocks md5 sid b1) -> In (e, d2) (s_blocks md5 sid b2) -> d1 = d2) ->
   (forall x, In x (si_rec si) -> fs_lookup fs (file_path ix (sfl_name x)) = None -> is_dir fs (file_path ix (sfl_name x)) = false) ->
   exists ds st',
-    load_all md5 ix (io_init fs []) = (Ok ds, st') /    d_index (ds_dec ds) = ix /\ d_setid (ds_dec ds) = sid /\ d_slice (ds_dec ds) = si_slice si /    d_rec (ds_dec ds) = map dinfo_of (si_rec si) /\ d_nonrec (ds_dec ds) = map dinfo_of (si_nonrec si) /    (forall e dd, nth (N.to_nat e) (ds_parity ds) None = Some dd <->
-                  exists p b, In p (rec_listing ix fs) /\ fs_lookup fs p = Some b /\ In (e, dd) (s_blocks md5 sid b)) /    (forall e, nth (N.to_nat e) (ds_parity ds) None = None <->
+    load_all md5 ix (io_init fs []) = (Ok ds, st') /\
+    d_index (ds_dec ds) = ix /\ d_setid (ds_dec ds) = sid /\ d_slice (ds_dec ds) = si_slice si /\
+    d_rec (ds_dec ds) = map dinfo_of (si_rec si) /\ d_nonrec (ds_dec ds) = map dinfo_of (si_nonrec si) /\
+    (forall e dd, nth (N.to_nat e) (ds_parity ds) None = Some dd <->
+                  exists p b, In p (rec_listing ix fs) /\ fs_lookup fs p = Some b /\ In (e, dd) (s_blocks md5 sid b)) /\
+    (forall e, nth (N.to_nat e) (ds_parity ds) None = None <->
                ~ exists dd p b, In p (rec_listing ix fs) /\ fs_lookup fs p = Some b /\ In (e, dd) (s_blocks md5 sid b)).
 Proof. exact spec_set_loaded. Qed.
 Print Assumptions C06_spec_set_loaded.
